@@ -660,9 +660,23 @@ pub fn ordered_pairs<T: Sync>(
     touch: &(dyn Fn(&T) + Sync),
     check: &(dyn Fn(&T) -> Result<(), String> + Sync),
 ) -> Option<(usize, usize, String)> {
+    ordered_pairs_mode(items, touch, check, items.len() > 9000)
+}
+
+/// `parallel = false`: one thread walks all pairs in order — with process-wide state in the code
+/// under test this is the only way to guarantee that b really is preceded by a, so it is used
+/// whenever the number of pairs allows; `parallel = true` distributes rows over threads (other
+/// threads' calls may then come between a and b: still a search over predecessors, no longer an
+/// exhaustive one).
+pub fn ordered_pairs_mode<T: Sync>(
+    items: &[T],
+    touch: &(dyn Fn(&T) + Sync),
+    check: &(dyn Fn(&T) -> Result<(), String> + Sync),
+    parallel: bool,
+) -> Option<(usize, usize, String)> {
     use rayon::prelude::*;
     let n = items.len();
-    let cand: Option<(usize, usize)> = (0..n).into_par_iter().find_map_first(|a| {
+    let row = |a: usize| -> Option<(usize, usize)> {
         for b in 0..n {
             let r = guard(|| {
                 touch(&items[a]);
@@ -673,7 +687,8 @@ pub fn ordered_pairs<T: Sync>(
             }
         }
         None
-    });
+    };
+    let cand: Option<(usize, usize)> = if parallel { (0..n).into_par_iter().find_map_first(row) } else { (0..n).find_map(row) };
     let (a, b) = cand?;
     // confirm sequentially: warm-up on an unrelated item, then a, then b
     let confirm = |a: usize, b: usize| -> Option<String> {
